@@ -89,7 +89,8 @@ where
             })
             .unwrap();
 
-        connection.session_expiry_interval >= elapsed
+        // The session outlives the connection by the expiry interval.
+        elapsed > connection.session_expiry_interval
     }
 
     fn reset_session(session: &mut Session) {
